@@ -372,7 +372,7 @@ pub fn worker_main(
     if let Some(k) = only_case {
         col.progress.set_case(k);
         let mut rng = Rng::derive(pseed, k, 0);
-        mon.run_case(k, &mut rng, &mut col);
+        guarded_case(&mut mon, k, &mut rng, &mut col);
     } else {
         let mut k = start_k.unwrap_or(index);
         let mut last_ckpt = Instant::now();
@@ -392,13 +392,29 @@ pub fn worker_main(
             }
             col.progress.set_case(k);
             let mut rng = Rng::derive(pseed, k, 0);
-            mon.run_case(k, &mut rng, &mut col);
+            guarded_case(&mut mon, k, &mut rng, &mut col);
             col.count("cases_run", 1);
             k += of;
         }
     }
     mon.finish(&mut col);
     col.write(out, u64::MAX, true);
+}
+
+/// A panic that escapes a monitor's own guarded calls: inside the subject it is a crash of the subject (violation);
+/// inside the harness it is a defect of the harness and makes the run inconclusive - never a verdict on the subject.
+fn guarded_case(mon: &mut Box<dyn Monitor>, k: u64, rng: &mut Rng, col: &mut Collector) {
+    if let Err(p) = catch(|| mon.run_case(k, rng, col)) {
+        if std::env::var("AXMON_PANIC_TRACE").is_ok() {
+            eprintln!("case {} panicked at {}:{}: {}", k, p.file, p.line, p.msg);
+        }
+        if p.file.starts_with("/repo/") {
+            let detail = format!("panic at {}:{}: {}", p.file, p.line, p.msg.chars().take(200).collect::<String>());
+            col.violation_case(&format!("unguarded-panic:{}", panic_sig(&p)), k, detail.clone(), json!({"problem": detail}));
+        } else {
+            col.inconclusive(&format!("harness panic in case {} at {}:{}: {}", k, p.file, p.line, p.msg.chars().take(120).collect::<String>()));
+        }
+    }
 }
 
 struct Known {
